@@ -30,7 +30,7 @@ def rand_seq(rng, n):
     return ''.join(rng.choice('ACGT') for _ in range(n))
 
 
-def default_world(seed=1, k=5, prefix='AT', names='plain'):
+def default_world(seed=1, k=5, prefix='AT', names='plain', hidden_root=False):
     """3-level taxonomy (genus > species > subspecies), 9 reference genomes incl. two identical ones, a threshold-less
     genus, an unreportable subspecies, a second root; thresholds are float32-exact."""
     rng = random.Random(seed)
@@ -44,6 +44,10 @@ def default_world(seed=1, k=5, prefix='AT', names='plain'):
         dict(name=nm('GenusB', ' Genus B '), rank='genus', parent=0, thr=0.75, report=True, ncbi_id=200),
         dict(name=nm('SpB1', 'B,sp,1'), rank=None, parent=5, thr=0.4375, report=True, ncbi_id=201),
     ]
+    if hidden_root:
+        # a lineage that is unreportable all the way to its root: predictions there have NO reported taxon
+        taxa[4]['report'] = False
+        taxa[5]['report'] = False
     core = {t: rand_seq(rng, 260) for t in (2, 3, 6)}
     core[4] = mutate(rng, core[2], 0.03)
     genomes = []
@@ -92,11 +96,19 @@ def fasta_bytes(contigs, width=60, eol='\n', lower=False):
     return ''.join(out).encode()
 
 
-def write_fasta(path, contigs, gz=False, **kw):
+def gzip_bytes(data, members=1):
+    """gzip file with the given number of members (a concatenation of gzip streams is a valid gzip file, RFC 1952)"""
+    if members <= 1 or len(data) < members:
+        return gzip.compress(data)
+    cuts = [len(data) * i // members for i in range(members + 1)]
+    return b''.join(gzip.compress(data[a:b]) for a, b in zip(cuts, cuts[1:]))
+
+
+def write_fasta(path, contigs, gz=False, members=1, **kw):
     data = fasta_bytes(contigs, **kw)
     os.makedirs(os.path.dirname(path), exist_ok=True)
     with open(path, 'wb') as f:
-        f.write(gzip.compress(data) if gz else data)
+        f.write(gzip_bytes(data, members) if gz else data)
     return path
 
 
